@@ -41,11 +41,14 @@ Section Link.
   Notation docs := (do_cs S X gen hfun lout mrg f x0).
 
   (* the critical section of the transition system (and of the replay of every observed log) is the
-     script of the trace of the wrapper's code *)
-  Lemma do_cs_is_wrapper_script : forall w h c i n, h <> HPanic ->
+     script of the trace of the wrapper's code - whatever the user function does: when it returns an
+     error or panics it has made its update, the lock is released on the way out (the deferred
+     unlock), and the node goes no further (the harness injects both kinds of failure and the replay
+     performs [do_cs] for such a section like for any other) *)
+  Lemma do_cs_is_wrapper_script : forall w h c i n,
     docs c i n = run_steps S X pstp c (script (o_trace (run_prog true h (cs_prog w))) i n).
   Proof.
-    intros w h c i n Hh. rewrite wrappers_meet_protocol. cbn [cs_spec o_trace script flat_map app].
+    intros w h c i n. rewrite wrappers_meet_protocol. cbn [cs_spec o_trace script flat_map app].
     unfold do_cs. cbn [run_steps].
     destruct (pstp c (ChAcq i n)) as [c1|]; [|reflexivity].
     destruct (pstp c1 (ChLoad i n)) as [c2|]; [|reflexivity].
